@@ -209,8 +209,8 @@ func (e *Engine) verifyUnit(u *Unit) {
 			}
 		}
 		if !found {
-			u.err = fmt.Sprintf("binding: loop %d of the contract does not exist in %s (has %d loops)", ls.Ordinal, u.name, len(u.loops))
-			return
+			// invariants are proof aids only: a loop that no longer exists needs none; the ensures clauses still have to hold
+			e.notes = append(e.notes, fmt.Sprintf("%s: loop %d of the contract does not exist any more (function has %d loops); its invariants are ignored", u.name, ls.Ordinal, len(u.loops)))
 		}
 	}
 	e.computeOrdinals(u)
@@ -832,6 +832,9 @@ func (e *Engine) modSetBlocks(st *State, fn *ssa.Function, blocks map[*ssa.Basic
 				add("MV:" + base + ":*")
 				add("MV:" + base + ":")
 			case ssa.CallInstruction:
+				if _, isGo := x.(*ssa.Go); isGo {
+					continue // another goroutine: its writes are interference, not part of this unit's frame
+				}
 				c := x.Common()
 				if bi, ok := c.Value.(*ssa.Builtin); ok {
 					switch bi.Name() {
@@ -865,6 +868,12 @@ func (e *Engine) modSetBlocks(st *State, fn *ssa.Function, blocks map[*ssa.Basic
 						}
 						continue
 					}
+					if !c.IsInvoke() {
+						if ct, ok := e.specs.Contracts[dynCallKey(c)]; ok {
+							pats = append(pats, ct.Modifies...)
+							continue
+						}
+					}
 					return nil, true
 				}
 				key := fnKey(callee)
@@ -873,7 +882,21 @@ func (e *Engine) modSetBlocks(st *State, fn *ssa.Function, blocks map[*ssa.Basic
 					continue
 				}
 				if intr, ok := intrinsics[callee.String()]; ok {
-					pats = append(pats, intr.mods...)
+					bad := false
+					for _, m := range intr.mods {
+						if m == "$arg0" {
+							if k, ok := storeTarget(c.Args[0]); ok {
+								add(k)
+							} else {
+								bad = true
+							}
+						} else {
+							add(m)
+						}
+					}
+					if bad {
+						return nil, true
+					}
 					continue
 				}
 				if e.isSkipped(callee) {
